@@ -182,7 +182,7 @@ fn run_conc(l: &[Sx]) -> Sx {
                 Some(c) => c,
                 None => return (false, Vec::new()),
             };
-            conn.set_timeout(Duration::from_millis(5000));
+            conn.set_timeout(Duration::from_millis(20000));
             if kind == "idle" {
                 thread::sleep(Duration::from_millis(30));
                 return (true, Vec::new());
@@ -208,7 +208,16 @@ fn run_conc(l: &[Sx]) -> Sx {
                         break;
                     }
                     Ok(n) => got.extend_from_slice(&buf[..n]),
-                    Err(_) => break,
+                    Err(e) => {
+                        // the server closed while bytes of ours were still unread on its side
+                        // (after an error it shuts the stream down): the kernel reports a reset
+                        // after delivering everything that was queued for us
+                        closed = matches!(
+                            e.kind(),
+                            std::io::ErrorKind::ConnectionReset | std::io::ErrorKind::BrokenPipe | std::io::ErrorKind::ConnectionAborted
+                        );
+                        break;
+                    }
                 }
             }
             (closed, got)
